@@ -18,6 +18,11 @@ def invoice_descs():
                     if sig == "otherkey": d["payee"] = 2            # explicit payee field that the signature does not match
                     if sig == "explicit_same": d["payee"] = 1
                     out.append(d)
+    # explicit payee key + a signature whose recovery id is flipped: the signature verifies against the explicit key, key recovery
+    # yields another key; and the same without an explicit key (then the recovered key IS the payee, whoever that is)
+    for amount in (1000000, None):
+        out.append({"pre": 0, "amount": amount, "signer": 1, "payee": 1, "flip_recid": 1, "hints": []})
+        out.append({"pre": 0, "amount": amount, "signer": 1, "flip_recid": 1, "hints": []})
     out.append({"pre": 0, "amount": 1000000, "signer": 1, "corrupt": 2})   # upper-case string
     out.append({"pre": 0, "amount": 1000000, "signer": 1, "corrupt": 3})   # truncated string
     return out
@@ -120,7 +125,7 @@ def term(case, obs, lk):
 def run_classify(prop, tier, seed, extra=None):
     o = Outcome(prop, tier, seed)
     num = int(prop[1:])
-    o.rule = ("cross product {invoice amount present/absent} x {signature valid / corrupted / explicit payee not matching the signature / explicit payee matching} x "
+    o.rule = ("cross product {invoice amount present/absent} x {signature valid / corrupted / explicit payee not matching the signature / explicit payee matching / recovery id flipped with and without an explicit payee} x "
               "{7 route-hint shapes with the local node as last / middle / absent hop} x {invoice hash equal / different from the HTLC's / near misses (bit flips that cancel under XOR, exchanged bytes, reversed, rotated, complement)} x {amount field absent, 0-9 bytes, agreeing, off by one; records of the metadata in and out of ascending type order} x "
               "{self-route-hint flag} x {forward_msat / short_channel_id present or not}, all invoices built and parsed with the plugin's own lightning-invoice crate, plus malformed payload / "
               "metadata byte strings. Non-trivial: the model classifies the request as trampoline, fail, or continue-with-rewrite (shape 2-4); distinct = distinct (invoice, request, flag)")
